@@ -50,12 +50,32 @@ def norm_root(expr):
     return _re.sub(r'^(this|arg\d+)(\._parameters)?\.', '*.', expr)
 
 
+def canon_expr(expr):
+    """the same site whether its index is a counter, a cast counter or the element of a range-for"""
+    import re as _re
+    return _re.sub(r'\((?:unsigned long|unsigned int|size_t|int|long)\)(?=\$v|local:)', '', expr or '')
+
+
+def same_value_read(kexpr, oexpr):
+    """a finding identified by the mandatory parameter that is read unchecked: the same read with the group name
+    coming from a variable (a table of groups walked by a loop) is the same finding"""
+    import re as _re
+    mk = _re.match(r'^.*\.group\("(\w+)"\)(\.parameter\("\w+"\)\.valuesAs\w+\(\)\[0\])$', kexpr or '')
+    mo = _re.match(r'^.*\.group\((.*)\)(\.parameter\("\w+"\)\.valuesAs\w+\(\)\[0\])$', oexpr or '')
+    if not mk or not mo or mk.group(2) != mo.group(2):
+        return False
+    arg = mo.group(1)
+    if _re.match(r'^"\w+"$', arg):
+        return False          # a literal group: compared exactly elsewhere
+    return ('"%s"' % mk.group(1)) in arg
+
+
 def is_known(o, known):
     """index of the open known finding that observation o is an instance of, else None"""
     for i, k in enumerate(known):
-        if k['rule'] == o['rule'] and k['function'] == o['function'] and k['expr'] == o['expr']:
+        if k['rule'] == o['rule'] and k['function'] == o['function'] and canon_expr(k['expr']) == canon_expr(o['expr']):
             return i
-        if k.get('match') == 'expr-anywhere' and k['rule'] == o['rule'] and norm_root(k['expr']) == norm_root(o['expr']):
+        if k.get('match') == 'expr-anywhere' and k['rule'] == o['rule'] and (norm_root(k['expr']) == norm_root(o['expr']) or same_value_read(k['expr'], o['expr'])):
             return i
     return None
 
@@ -78,11 +98,11 @@ def finish(res, seed=0):
         if o['verdict'] == VIOL:
             hit = None
             for i, k in enumerate(known):
-                if k['rule'] == o['rule'] and k['function'] == o['function'] and k['expr'] == o['expr']:
+                if k['rule'] == o['rule'] and k['function'] == o['function'] and canon_expr(k['expr']) == canon_expr(o['expr']):
                     hit = i
                     break
                 # a finding identified by the failing input (the value read), wherever the read sits
-                if k.get('match') == 'expr-anywhere' and k['rule'] == o['rule'] and norm_root(k['expr']) == norm_root(o['expr']):
+                if k.get('match') == 'expr-anywhere' and k['rule'] == o['rule'] and (norm_root(k['expr']) == norm_root(o['expr']) or same_value_read(k['expr'], o['expr'])):
                     hit = i
                     break
             if hit is not None:
